@@ -2,6 +2,7 @@ package main
 
 import (
 	"fmt"
+	"unicode/utf8"
 	"math"
 	"strconv"
 
@@ -352,6 +353,9 @@ func (w *World) genClause(segOK bool) *J {
 			default:
 				a := r.Intn(len(s))
 				v = JStr(s[a:r.Range(a, len(s))])
+			}
+			if !utf8.ValidString(v.S) { // never cut inside a multi-byte character: JSON text must be valid UTF-8
+				v = JStr(s)
 			}
 		} else if v.K == 'd' && r.P(0.5) {
 			v = JNum(v.N + []float64{-1, 0, 1, 0.5}[r.Intn(4)])
@@ -832,7 +836,7 @@ func (w *World) addChain(c *EvalCase) {
 		pre := &J{K: 'a', A: []*J{}}
 		if i+1 < depth {
 			pre.A = append(pre.A, JObj(KV{"key", JStr(mk(i + 1))}, KV{"variation", JInt(0)}))
-			if mode == 1 && i+2 < depth {
+			if mode == 1 && i+2 < depth && (depth <= 10 || i%(depth/3+1) == 0) { // a few diamonds: every extra edge doubles the work
 				pre.A = append(pre.A, JObj(KV{"key", JStr(mk(i + 2))}, KV{"variation", JInt(0)}))
 			}
 		} else if mode == 2 {
@@ -869,7 +873,7 @@ func (w *World) addChain(c *EvalCase) {
 		var cl *J
 		if i+1 < sdepth {
 			vals := JArr(JStr(sk(i + 1)))
-			if smode == 1 && i+2 < sdepth {
+			if smode == 1 && i+2 < sdepth && (sdepth <= 10 || i%(sdepth/3+1) == 0) {
 				vals = JArr(JStr("missing"), JStr(sk(i+2)), JStr(sk(i+1)))
 			}
 			cl = JObj(KV{"attribute", JStr("")}, KV{"op", JStr("segmentMatch")}, KV{"values", vals}, KV{"negate", JBool(false)})
